@@ -52,6 +52,8 @@ MUST_FIRE = [
      "            self.window_.append(np.array(x_cand))\n", "            self.window_.append(x_cand)\n"),
     ("cognitive-window-view", ["C13"], ["R13.7"], P + "stream/_density_uncertainty.py",
      "        self.cognition_window_.extend(np.array(candidates))\n", "        self.cognition_window_.extend(candidates)\n"),
+    ("swc-label-views", ["C13"], ["R13.6"], P + "classifier/_wrapper.py",
+     "        self.y_train_.extend(np.array(y))\n", "        self.y_train_.extend(y)\n"),
     # ---- C01 / C02 / C18 selection
     ("sb-mask-deleted", ["C01", "C18"], ["R1.4", "R18.2"], SEL,
      "            utilities[tuple(best_indices[i])] = np.nan\n", ""),
